@@ -58,7 +58,9 @@ inductive PathRoot where
 inductive Gate where
   | always
   /-- only reachable through `maybe_spawn_repo_hook_self_heal`, which returns at once unless the
-      repository opted into managed-hooks mode (`is_repo_hooks_enabled`) -/
+      repository opted into managed-hooks mode (`is_repo_hooks_enabled`), or through
+      `maybe_restore_stale_rebase_hooks`, which returns at once unless `rebase_hook_mask_state.json` exists — a
+      file only the managed pre-rebase hook writes (the extractor checks the writer and its only caller) -/
   | managedHooksMode
   deriving Repr, DecidableEq, Inhabited
 
